@@ -79,6 +79,10 @@ func checkC05(c *Ctx) {
 	r.Rule("R05g", "JSON-mapping annotations are consumed by all generators or none", 8)
 	r.Rule("R05n", "reads of the run-wide unwrap table fall back to the descriptor itself (shared with C04/R04j, C15/R15f): an annotated value message declared in a file that is not generated in this run still gets the documented form", 2)
 	c.checkGlobalTableReads("R05n")
+	r.Rule("R05o", "integer codecs: no emitted conversion of the field's value changes its sign or narrows it (shared with C04/R04p): the documented NUMBER form of every 64-bit value is accepted and written", 4)
+	checkWorldConversions(c, "R05o")
+	r.Rule("R05p", "an emitted encoder writes one entry for every element of the collection it ranges over (shared with C04/R04r): an empty list under a map key is written as [], not dropped", 2)
+	encoderKeepsEveryElement(c, "R05p")
 
 	// ---------------- R05a
 	for _, f := range c05Features {
